@@ -77,6 +77,7 @@ static Fields gen(Tape &t) {
     f.set("a", u.text()); f.set("b", m.text());
     f.set("c", t.coin() ? u.text() : mutate(t, m, &k2).text());
     f.seti("mut", k1);
+    f.seti("handedit", t.chance(7, 8) ? 0 : 1 + (int)t.below(3));
   } else if (arm == 2) {
     std::string s = g_uri(t);
     f.set("a", s); f.set("b", s); f.set("c", s);
@@ -135,6 +136,11 @@ template <class A> static Verdict check_type(const Fields &f, int *minDiff, bool
     parse_via<A>(b, PE_SINGLE_EX, widen<Ch>(f.get("b")));
     parse_via<A>(c, PE_SINGLE_EX, widen<Ch>(f.get("c")));
     if (a.rc || b.rc || c.rc) return Verdict::discard();
+    const bool produced = !f.geti("handedit");  // the "equal iff texts identical" clause speaks of URIs the library produced
+    if (f.geti("handedit")) {  // the flag is documented as irrelevant for URIs with a host: a caller may have set it
+      if (a.uri.hostText.first) a.uri.absolutePath = URI_TRUE;
+      if ((f.geti("handedit") & 2) && b.uri.hostText.first) b.uri.absolutePath = URI_TRUE;
+    }
     VF_REQUIRE(A::EqualsUri(&a.uri, nullptr) == URI_FALSE && A::EqualsUri(nullptr, &a.uri) == URI_FALSE, "%s: (x, NULL) reported equal", A::name());
     if (arm == 2) {
       int v = (int)f.geti("variant");
@@ -157,15 +163,15 @@ template <class A> static Verdict check_type(const Fields &f, int *minDiff, bool
       }
     }
     bool ab, bc, ac, aa;
-    Verdict v = judge<A>(&a.uri, &a.uri, true, "reflexivity", &aa, &d);
+    Verdict v = judge<A>(&a.uri, &a.uri, produced, "reflexivity", &aa, &d);
     if (v.kind != Verdict::PASS) return v;
     VF_REQUIRE(aa, "%s: a URI is not equal to itself", A::name());
-    v = judge<A>(&a.uri, &b.uri, true, "a~b", &ab, &d);
+    v = judge<A>(&a.uri, &b.uri, produced, "a~b", &ab, &d);
     if (v.kind != Verdict::PASS) return v;
     *minDiff = d;
-    v = judge<A>(&b.uri, &c.uri, true, "b~c", &bc, &d);
+    v = judge<A>(&b.uri, &c.uri, produced, "b~c", &bc, &d);
     if (v.kind != Verdict::PASS) return v;
-    v = judge<A>(&a.uri, &c.uri, true, "a~c", &ac, &d);
+    v = judge<A>(&a.uri, &c.uri, produced, "a~c", &ac, &d);
     if (v.kind != Verdict::PASS) return v;
     VF_REQUIRE(!(ab && bc) || ac, "%s: uriEqualsUri is not transitive", A::name());
     if (arm == 2) VF_REQUIRE(ab && bc && ac, "%s: equal-by-construction copies compare different", A::name());
